@@ -1322,9 +1322,9 @@ def w_relocate(failure, tier):
     import tempfile
     base = os.path.join(os.path.dirname(os.path.dirname(os.path.abspath(__file__))), '.cache', 'relocate-%d' % os.getpid())
     n = 0
-    for nseg in (1, 2, 3):
+    for (nseg, orig, copy) in ((1, "a", "b"), (2, "a", "b"), (3, "a", "b"), (2, "idx-2024", "idx"), (2, "idx", "idx-restored")):
         docs = [[{"_id": "d%d_%d" % (b, i), "body": "rust search %d" % i} for i in range(3)] for b in range(nseg)]
-        case = {"dir": base, "docs": docs, "more": [{"_id": "x1", "body": "rust extra"}], "query": "rust"}
+        case = {"dir": base, "orig": orig, "copy": copy, "docs": docs, "more": [{"_id": "x1", "body": "rust extra"}], "query": "rust"}
         r = drive('relocate', [_json.dumps(case).encode()])[0]
         if not r.startswith('OK '):
             return dict(found=False, note='relocate driver failed: %s' % r[:300])
@@ -1349,9 +1349,9 @@ def w_relocate(failure, tier):
             problems.append('the copy on its own (original deleted): %s' % _json.dumps(run.get('hits_copy_alone'))[:200])
         if problems:
             return dict(found=True, cmd='%s relocate <<< hex(json)' % BIN,
-                        input='index of %d segment(s) built at <dir>/a, copied to <dir>/b; through b: search, add one document, commit, compact' % nseg,
+                        input='index of %d segment(s) built at <dir>/%s, copied to <dir>/%s; through the copy: search, add one document, commit, compact' % (nseg, orig, copy),
                         observed='; '.join(problems), expected='the original directory untouched and still serving its hits; the copy self-contained')
-    return dict(found=False, note='relocation: %d indexes (1-3 segments) copied, the copy searched / committed / compacted: the original directory is untouched, the copy is self-contained' % n)
+    return dict(found=False, note='relocation: %d indexes (1-3 segments; also directory names that are textual prefixes of one another) copied, the copy searched / committed / compacted: the original directory is untouched, the copy is self-contained' % n)
 
 
 def w_completion(failure, tier):
